@@ -53,7 +53,11 @@ class C06(Property):
     ID = "C06"
     RUNS = {"quick": 2400, "thorough": 80000}
     CHUNK = 20
-    RULE = ("One run = one workload label (generated, or a label of "
+    RULE = ("One run = one workload label (generated - half of them with "
+            "the extended vocabulary: signs, both based-integer sign "
+            "positions, zone offsets, leap seconds, sets holding sets and "
+            "sequences, units on anything, multi-line and dash-continued "
+            "strings, odd unquoted strings, empty blocks -, or a label of "
             "tests/data cut to <=700 characters) in one of the five parser "
             "configurations, then 40-120 damaged variants: truncation at "
             "sampled (in 1 run of 6: every) character offsets, 1-3 character "
@@ -79,7 +83,8 @@ class C06(Property):
     REQUIRED_PROBES = ["probe.eof-inside-block", "probe.eof-inside-collection",
                        "probe.corpus-label", "probe.generated-label",
                        "probe.outcome-ParseError", "probe.outcome-LexerError",
-                       "probe.outcome-ok-after-fault"]
+                       "probe.outcome-ok-after-fault",
+                       "probe.extended-vocabulary"]
 
     def check(self, out, case, nontrivial=False):
         config = case["config"]
@@ -140,10 +145,14 @@ class C06(Property):
             out.inc("probe.corpus-label")
             source = name
         else:
+            ext = rng.random() < 0.5
             stmts, toks, text, style = gen.render_doc(
-                rng, config, max_stmts=rng.choice([1, 2, 3, 4, 6, 8]))
+                rng, config, max_stmts=rng.choice([1, 2, 3, 4, 6, 8]),
+                extended=ext)
             out.inc("probe.generated-label")
-            source = "generated"
+            if ext:
+                out.inc("probe.extended-vocabulary")
+            source = "generated-extended" if ext else "generated"
         out.log.ev("label", config, source, text)
         n = len(text)
         kinds = [k for k in ("trunc", "chars", "tokens", "chan-eof",
@@ -162,7 +171,20 @@ class C06(Property):
             if rng.random() < 1 / 6 and n <= 400:
                 offs = range(n)
             else:
-                offs = sorted(set(rng.randrange(n + 1) for _ in range(30)))
+                offs = set(rng.randrange(n + 1) for _ in range(20))
+                # places with in-flight state: inside collections, right
+                # after '=', around block begin/end statements
+                hot = [i for i, ch in enumerate(text) if ch in "({,=<"]
+                if toks is not None:
+                    hot += [t.end for t in toks if t.end is not None and
+                            t.role in ("begin", "begin-eq", "block-name",
+                                       "end-kw", "end-eq", "open", "comma",
+                                       "element")]
+                for _ in range(20):
+                    if hot:
+                        offs.add(min(n, rng.choice(hot) +
+                                     rng.choice([0, 1, 1, 2, 3])))
+                offs = sorted(offs)
             for k in offs:
                 out.inc("fault.text-truncate")
                 t = text[:k]
